@@ -185,12 +185,57 @@ func makeIntrinsics() map[string]intrinsic {
 		}
 		return StrConst(sb.String())
 	}
+	m["strings.EqualFold"] = func(st *State, fr *frame, a []value, cc *ssa.CallCommon) value {
+		x, y := a[0].(*Str), a[1].(*Str)
+		if x.Blob != nil || y.Blob != nil {
+			panic(pathEnd{kind: "unsupported", msg: "strings.EqualFold on an abstract string"})
+		}
+		// non-ASCII bytes fold by Unicode simple case folding (e.g. the Kelvin sign): not summarised
+		nonASCII := False
+		for _, s := range []*Str{x, y} {
+			for i, b := range s.B {
+				nonASCII = Or(nonASCII, And(BVCmp("bvuge", b, BVConstI(0x80, 8)), BVCmp("bvult", BVConstI(int64(i), 64), s.Len)))
+			}
+		}
+		if st.decide(nonASCII) {
+			panic(pathEnd{kind: "unsupported", msg: "strings.EqualFold with non-ASCII bytes (Unicode case folding is not summarised)"})
+		}
+		lower := func(b *Term) *Term {
+			up := And(BVCmp("bvuge", b, BVConstI('A', 8)), BVCmp("bvule", b, BVConstI('Z', 8)))
+			return Ite(up, BVBin("bvadd", b, BVConstI(32, 8)), b)
+		}
+		r := Eq(x.Len, y.Len)
+		n := len(x.B)
+		if len(y.B) < n {
+			n = len(y.B)
+		}
+		for i := 0; i < n; i++ {
+			in := BVCmp("bvult", BVConstI(int64(i), 64), x.Len)
+			r = And(r, Or(Not(in), Eq(lower(x.B[i]), lower(y.B[i]))))
+		}
+		// a longer string cannot be equal unless its length says so (bytes beyond len are padding)
+		return r
+	}
 	m["strings.ToUpper"] = func(st *State, fr *frame, a []value, cc *ssa.CallCommon) value {
 		s, ok := a[0].(*Str).Concrete()
 		if !ok {
 			panic(pathEnd{kind: "unsupported", msg: "strings.ToUpper on a symbolic string"})
 		}
 		return StrConst(strings.ToUpper(s))
+	}
+	m[V+"SlashFree"] = func(st *State, fr *frame, a []value, cc *ssa.CallCommon) value {
+		label, _ := a[0].(*Str).Concrete()
+		n, _ := asConcreteInt(a[1])
+		s := &Str{Len: BVConstI(int64(n), 64)}
+		terms := []*Term{s.Len}
+		for i := 0; i < n; i++ {
+			b := st.freshVar(fmt.Sprintf("%s_b%d", label, i), BV(8))
+			st.assume(Not(Eq(b, BVConstI('/', 8))))
+			s.B = append(s.B, b)
+			terms = append(terms, b)
+		}
+		st.draws = append(st.draws, drawRec{label, "string", terms})
+		return s
 	}
 	m[V+"Uint32"] = func(st *State, fr *frame, a []value, cc *ssa.CallCommon) value {
 		label, _ := a[0].(*Str).Concrete()
@@ -623,6 +668,74 @@ func makeIntrinsics() map[string]intrinsic {
 	}
 	m[MI+"LTE"] = func(st *State, fr *frame, a []value, cc *ssa.CallCommon) value {
 		return IntCmp("<=", bi(st, a[0], fr, "LTE"), bi(st, a[1], fr, "LTE"))
+	}
+	zeroI := IntConst(big.NewInt(0))
+	m[MI+"Sign"] = func(st *State, fr *frame, a []value, cc *ssa.CallCommon) value {
+		v := bi(st, a[0], fr, "Sign")
+		return Ite(IntCmp("<", v, zeroI), BVConst(big.NewInt(-1), 64), Ite(IntCmp(">", v, zeroI), BVConstI(1, 64), BVConstI(0, 64)))
+	}
+	m[MI+"Neg"] = func(st *State, fr *frame, a []value, cc *ssa.CallCommon) value {
+		return &bigV{v: IntBin("-", zeroI, bi(st, a[0], fr, "Neg"))}
+	}
+	m[MI+"Abs"] = func(st *State, fr *frame, a []value, cc *ssa.CallCommon) value {
+		v := bi(st, a[0], fr, "Abs")
+		return &bigV{v: Ite(IntCmp("<", v, zeroI), IntBin("-", zeroI, v), v)}
+	}
+	m[MI+"SubRaw"] = func(st *State, fr *frame, a []value, cc *ssa.CallCommon) value {
+		k := a[1].(*Term)
+		var kt *Term
+		if k.IsConst() {
+			kt = IntConst(k.Signed())
+		} else {
+			n := BV2Nat(k)
+			kt = Ite(BVCmp("bvslt", k, BVConstI(0, 64)), IntBin("-", n, IntConst(new(big.Int).Lsh(big.NewInt(1), 64))), n)
+		}
+		r := IntBin("-", bi(st, a[0], fr, "SubRaw"), kt)
+		st.mayPanic(overflow(r), "math.Int overflow (SubRaw)", fr, cc.Pos())
+		return &bigV{v: r}
+	}
+	// truncated division by a symbolic divisor (big.Int.Quo): panics on zero
+	quo := func(st *State, x, d *Term) *Term {
+		ax := Ite(IntCmp("<", x, zeroI), IntBin("-", zeroI, x), x)
+		ad := Ite(IntCmp("<", d, zeroI), IntBin("-", zeroI, d), d)
+		q := mk("div", SInt, ax, ad)
+		neg := Not(Eq(IntCmp("<", x, zeroI), IntCmp("<", d, zeroI)))
+		return Ite(neg, IntBin("-", zeroI, q), q)
+	}
+	m[MI+"Quo"] = func(st *State, fr *frame, a []value, cc *ssa.CallCommon) value {
+		x, d := bi(st, a[0], fr, "Quo"), bi(st, a[1], fr, "Quo")
+		st.mayPanic(Eq(d, zeroI), "math.Int division by zero", fr, cc.Pos())
+		return &bigV{v: quo(st, x, d)}
+	}
+	m[MI+"SafeQuo"] = func(st *State, fr *frame, a []value, cc *ssa.CallCommon) value {
+		x, d := bi(st, a[0], fr, "SafeQuo"), bi(st, a[1], fr, "SafeQuo")
+		if st.decide(Eq(d, zeroI)) {
+			return tuple{&bigV{isNil: true}, newErr(st, "ErrIntDivisionByZero")}
+		}
+		return tuple{&bigV{v: quo(st, x, d)}, iface{}}
+	}
+	m[MI+"IsInt64"] = func(st *State, fr *frame, a []value, cc *ssa.CallCommon) value {
+		v := bi(st, a[0], fr, "IsInt64")
+		lim := IntConst(new(big.Int).Lsh(big.NewInt(1), 63))
+		return And(IntCmp("<", v, lim), IntCmp(">=", v, IntBin("-", zeroI, lim)))
+	}
+	m[MI+"IsUint64"] = func(st *State, fr *frame, a []value, cc *ssa.CallCommon) value {
+		v := bi(st, a[0], fr, "IsUint64")
+		return And(IntCmp(">=", v, zeroI), IntCmp("<", v, IntConst(new(big.Int).Lsh(big.NewInt(1), 64))))
+	}
+	m["cosmossdk.io/math.MaxInt"] = func(st *State, fr *frame, a []value, cc *ssa.CallCommon) value {
+		x, y := a[0].(*bigV), a[1].(*bigV)
+		if x.isNil || y.isNil {
+			panic(pathEnd{kind: "panic", msg: "math.MaxInt on a nil Int"})
+		}
+		return &bigV{v: Ite(IntCmp(">=", x.v, y.v), x.v, y.v)}
+	}
+	m["cosmossdk.io/math.MinInt"] = func(st *State, fr *frame, a []value, cc *ssa.CallCommon) value {
+		x, y := a[0].(*bigV), a[1].(*bigV)
+		if x.isNil || y.isNil {
+			panic(pathEnd{kind: "panic", msg: "math.MinInt on a nil Int"})
+		}
+		return &bigV{v: Ite(IntCmp("<=", x.v, y.v), x.v, y.v)}
 	}
 	m[MI+"Equal"] = func(st *State, fr *frame, a []value, cc *ssa.CallCommon) value {
 		return Eq(bi(st, a[0], fr, "Equal"), bi(st, a[1], fr, "Equal"))
@@ -1094,28 +1207,45 @@ func makeIntrinsics() map[string]intrinsic {
 		return st.decimal(x)
 	}
 	m["strings.Split"] = func(st *State, fr *frame, a []value, cc *ssa.CallCommon) value {
-		s, ok1 := a[0].(*Str).Concrete()
+		in := a[0].(*Str)
 		sep, ok2 := a[1].(*Str).Concrete()
-		if !ok1 || !ok2 {
-			panic(pathEnd{kind: "unsupported", msg: "strings.Split symbolic (prototype)"})
+		if !ok2 || len(sep) != 1 || in.Blob != nil {
+			panic(pathEnd{kind: "unsupported", msg: "strings.Split needs a one-byte separator"})
 		}
+		n := 0
+		if in.Len.IsConst() {
+			n = int(in.Len.C.Int64())
+		} else {
+			// symbolic length: fork on it (at most len(B)+1 cases)
+			for n = 0; n < len(in.B); n++ {
+				if st.decide(Eq(in.Len, BVConstI(int64(n), 64))) {
+					break
+				}
+			}
+		}
+		c := BVConstI(int64(sep[0]), 8)
 		var out []value
-		for _, p := range strings.Split(s, sep) {
-			out = append(out, StrConst(p))
+		start := 0
+		for i := 0; i < n; i++ {
+			if st.decide(Eq(in.B[i], c)) {
+				out = append(out, &Str{B: append([]*Term{}, in.B[start:i]...), Len: BVConstI(int64(i-start), 64)})
+				start = i + 1
+			}
 		}
+		out = append(out, &Str{B: append([]*Term{}, in.B[start:n]...), Len: BVConstI(int64(n-start), 64)})
 		return out
 	}
 	m["strings.Join"] = func(st *State, fr *frame, a []value, cc *ssa.CallCommon) value {
-		sep, _ := a[1].(*Str).Concrete()
-		var parts []string
-		for _, p := range a[0].([]value) {
-			c, ok := p.(*Str).Concrete()
-			if !ok {
-				panic(pathEnd{kind: "unsupported", msg: "strings.Join symbolic (prototype)"})
+		sep := a[1].(*Str)
+		parts := a[0].([]value)
+		out := StrConst("")
+		for i, p := range parts {
+			if i > 0 {
+				out = st.concat(out, sep)
 			}
-			parts = append(parts, c)
+			out = st.concat(out, p.(*Str))
 		}
-		return StrConst(strings.Join(parts, sep))
+		return out
 	}
 	m["strings.TrimSpace"] = func(st *State, fr *frame, a []value, cc *ssa.CallCommon) value {
 		in := a[0].(*Str)
@@ -1387,6 +1517,9 @@ func decodeModel(m map[string]string) map[string]string {
 
 // parseVal extracts the numeric value from a get-value answer "((term value))".
 func parseVal(ans string, t *Term) *big.Int {
+	if t != nil && t.IsConst() {
+		return new(big.Int).Set(t.C)
+	}
 	ans = strings.TrimSpace(ans)
 	// strip outer "((" ... "))" and the echoed term
 	inner := strings.TrimSuffix(strings.TrimPrefix(ans, "(("), "))")
